@@ -52,7 +52,9 @@ TB_M9 = ['vm/interpreter.go Run (the loop body) and the frame-local instructions
 
 def frame_prop(mods, extra_runs=(), partial=None):
     d = {'modules': mods, 'runs': [{'layer': 'frame'}] + [{'layer': l} for l in extra_runs],
-         'trusted_base': TB_M1 + TB_M5, 'assumptions': ['StateDB revision contract (RevertToSnapshot restores all journaled state)', 'one Aspect bound per contract in the generated cases']}
+         'trusted_base': TB_M1 + TB_M5, 'assumptions': ['StateDB revision contract (RevertToSnapshot restores all journaled state)', 'one Aspect bound per contract in the generated cases',
+                                                          'the join-point switch EVM.IsExecuteJP does not change while a frame is open: evm.go reads it before the pre join point and again after the interpreter run, the model reads it once (an audit of the model against the code pointed this out; the properties quantify over executions with the switch fixed)',
+                                                          'likewise chain rules and the debug tracer are not replaced while a create frame is open']}
     if partial:
         d['partial'] = partial
     return d
@@ -107,7 +109,7 @@ PROPS = {
     'C08': frame_prop(['Artela.Props.C08', 'Artela.Props.C08Count'], ['tracer']),
     'C09': {
         'modules': ['Artela.Props.C09'],
-        'runs': [{'layer': 'journal'}],
+        'runs': [{'layer': 'journal'}, {'layer': 'frame'}],
         'trusted_base': TB_M1 + TB_M2 + ['Solidity storage layout as written in Artela/Spec/Solidity.lean (solPacked, solString) and, independently, in the Go harness (putString)'],
         'assumptions': ['storage words are < 2^256 (common.Hash)', 'Go append returns capacity >= length'],
     },
